@@ -27,7 +27,7 @@ import (
 // ------------------------------------------------------------------ marshaler configurations
 
 var c15MarshalerNames = []string{"json/default", "json/StructName", "json/NamedStruct(FullyQualified)", "json/colliding",
-	"proto/default", "proto/NamedStruct(StructName)"}
+	"proto/default", "proto/NamedStruct(StructName)", "gogo/default(std fallback)", "gogo/StructName,no fallback"}
 
 func c15Marshaler(mk int, newUUID func() string) cqrs.CommandEventMarshaler {
 	switch mk {
@@ -41,8 +41,12 @@ func c15Marshaler(mk int, newUUID func() string) cqrs.CommandEventMarshaler {
 		return cqrs.JSONMarshaler{NewUUID: newUUID, GenerateName: ct.Colliding}
 	case 4:
 		return cqrs.ProtoMarshaler{NewUUID: newUUID}
-	default:
+	case 5:
 		return cqrs.ProtoMarshaler{NewUUID: newUUID, GenerateName: cqrs.NamedStruct(cqrs.StructName)}
+	case 6:
+		return cqrs.ProtobufMarshaler{NewUUID: newUUID}
+	default:
+		return cqrs.ProtobufMarshaler{NewUUID: newUUID, GenerateName: cqrs.StructName, DisableStdProtoFallback: true}
 	}
 }
 
@@ -63,6 +67,7 @@ type c15Tab struct {
 	in       *script.Interner
 	vals     map[[2]int]bool
 	payloads map[int]bool
+	zeroKeys [][2]int
 }
 
 func newC15Tab(mk int, in *script.Interner) *c15Tab {
@@ -71,7 +76,10 @@ func newC15Tab(mk int, in *script.Interner) *c15Tab {
 		z := ct.New(ty)
 		_, c := ct.Render(z)
 		t.Zero = append(t.Zero, [2]int{ty, in.ID(c)})
-		t.addValue(z)
+		// only the NAME of a zero value is needed (handler type names); it is not marshalled
+		key := [2]int{ty, in.ID(c)}
+		t.Names = append(t.Names, [3]int{key[0], key[1], in.ID(t.m.Name(z))})
+		t.zeroKeys = append(t.zeroKeys, key)
 	}
 	return t
 }
@@ -84,7 +92,15 @@ func (t *c15Tab) addValue(v any) [2]int {
 		return key
 	}
 	t.vals[key] = true
-	t.Names = append(t.Names, [3]int{key[0], key[1], t.in.ID(t.m.Name(v))})
+	isZero := false
+	for _, z := range t.zeroKeys {
+		if z == key {
+			isZero = true
+		}
+	}
+	if !isZero {
+		t.Names = append(t.Names, [3]int{key[0], key[1], t.in.ID(t.m.Name(v))})
+	}
 	if msg, err := t.m.Marshal(v); err == nil {
 		p := t.in.ID("payload:" + string(msg.Payload))
 		t.Enc = append(t.Enc, [3]int{key[0], key[1], p})
@@ -433,6 +449,12 @@ func (s *c15Scenario) randomValue(ty int) any {
 }
 
 func (s *c15Scenario) typePool() []int {
+	if s.mk == 7 { // no std fallback: std protobuf types are outside this marshaler's domain
+		return []int{ct.TGStr, ct.TGInt, ct.TGStr, ct.TGInt, ct.TCmdA}
+	}
+	if s.mk == 6 {
+		return []int{ct.TGStr, ct.TGInt, ct.TGStr, ct.TPStr, ct.TPInt, ct.TCmdA}
+	}
 	if c15IsProto(s.mk) {
 		return []int{ct.TPStr, ct.TPInt, ct.TPDur, ct.TPStr, ct.TPInt, ct.TCmdA}
 	}
@@ -1092,6 +1114,12 @@ func (b *c15BusScenario) run(sIdx, tabIdx, mk int) ([]*c15BusCall, error) {
 	if c15IsProto(mk) {
 		pool = []int{ct.TPStr, ct.TPInt, ct.TPDur, ct.TPStr, ct.TCmdA}
 	}
+	if mk == 6 {
+		pool = []int{ct.TGStr, ct.TGInt, ct.TGStr, ct.TPStr, ct.TCmdA}
+	}
+	if mk == 7 {
+		pool = []int{ct.TGStr, ct.TGInt, ct.TGStr, ct.TCmdA}
+	}
 	ncalls := 4 + b.rng.Intn(6)
 	var cs []*c15BusCall
 	as := []int{0, 1, 7, -3}
@@ -1361,7 +1389,7 @@ func cmdC15(args []string) error {
 	for i := 0; i < *nScen; i++ {
 		s := &c15Scenario{in: in, rng: rng}
 		s.wrapped = rng.Intn(10) < 7
-		s.mk = []int{0, 0, 1, 2, 3, 3, 4, 5}[rng.Intn(8)]
+		s.mk = []int{0, 0, 1, 2, 3, 3, 4, 5, 6, 7}[rng.Intn(10)]
 		s.kind = []int{0, 1, 2, 2}[rng.Intn(4)]
 		s.depr = s.kind != 2 && rng.Intn(5) == 0
 		s.ackErrors = rng.Intn(2) == 0
@@ -1421,7 +1449,7 @@ func cmdC15(args []string) error {
 	curScn.Store(nil)
 
 	for i := 0; i < *nBus; i++ {
-		mk := []int{0, 0, 1, 2, 3, 4, 5}[rng.Intn(7)]
+		mk := []int{0, 0, 1, 2, 3, 4, 5, 6, 7}[rng.Intn(9)]
 		b := &c15BusScenario{in: in, rng: rng, tab: newC15Tab(mk, in)}
 		tabIdx := len(res.Tabs)
 		res.Tabs = append(res.Tabs, b.tab)
